@@ -378,6 +378,19 @@ pub fn check_reject(c: &RejectCase, obs: &mut Obs) -> Verdict {
     let t = match run_text(&files, &case.run_opts(), false, false) { Ok(t) => t, Err(RunErr::Panic(p)) => return classify_panic(&p, csv), Err(_) => return Verdict::Fail("text run failed".into()) };
     let first = msg.lines().next().unwrap_or("");
     if !(t.out.contains(first) || t.err.contains(first)) { return Verdict::Fail(format!("text output does not show the rejection message for {sec}\n{csv}")); }
+    // ... for EACH rejected security: a third of the cases add a second security with the very same rows (another account holding the same
+    // fund), which is rejected with the same words whenever the message does not name the security - both tables must carry it
+    if case.rows.len() % 3 == 0 && case.opening_for(sec).is_none() && sec != "TWIN" && !case.rows.iter().any(|r| r.sec == "TWIN") {
+        let twin_rows: Vec<HRow> = sec_rows.iter().map(|r| { let mut t = r.clone(); t.sec = "TWIN".into(); t }).collect();
+        let mut files2 = files.clone();
+        files2.push(("twin.csv".to_string(), crate::gen::to_csv(&twin_rows)));
+        let t2 = match run_text(&files2, &case.run_opts(), false, false) { Ok(t) => t, Err(RunErr::Panic(p)) => return classify_panic(&p, csv), Err(_) => return Verdict::Fail("text run failed".into()) };
+        let twin_first = first.replace(sec, "TWIN");
+        let shown = |m: &str| t2.out.matches(m).count() + t2.err.matches(m).count();
+        let ok = if twin_first == first { shown(first) >= 2 } else { shown(first) >= 1 && shown(&twin_first) >= 1 };
+        if !ok { return Verdict::Fail(format!("text output: with a second security (TWIN) holding the same rows, the rejection message {first:?} is shown {} time(s) - each rejected security's table must carry its message\n{csv}", shown(first))); }
+        obs.class(if twin_first == first { "twin-security-rejected-with-the-same-words" } else { "twin-security-rejected" });
+    }
     // csv writer mode (what --csv-output-dir writes, plus the error stream)
     let w = match run_csv_writer(&files, &case.run_opts(), false, false) { Ok(t) => t, Err(RunErr::Panic(p)) => return classify_panic(&p, csv), Err(_) => return Verdict::Fail("csv-writer run failed".into()) };
     let mut cells: Vec<String> = vec![];
